@@ -199,7 +199,7 @@ func (r *request) handleErrorResult(raw *frame.RawFrame) (retried bool) {
 	logger := r.client.proxy.logger
 	decision := ReturnError
 
-	frm, err := r.client.rawCodec().ConvertFromRawFrame(raw)
+	frm, err := codecs.ConvertFromRawFrame(r.client.rawCodec(), raw)
 	if err != nil {
 		logger.Error("unable to decode error frame for retry decision", zap.Error(err))
 	} else {
